@@ -40,6 +40,14 @@ func (fullGraph *FullGraph) MergeHeaderFile(merge func(string) string) *FullGrap
 	}
 	for key := range fullGraph.RelationList {
 		relation := fullGraph.RelationList[key]
+		// a relation that leaves the graph (library type, type outside the analysed sources, Main) has
+		// no node to merge; it must not be re-attached to a project package that happens to share its name
+		if _, ok := fullGraph.NodeList[relation.From]; !ok {
+			continue
+		}
+		if _, ok := fullGraph.NodeList[relation.To]; !ok {
+			continue
+		}
 		mergedFrom := merge(relation.From)
 		mergedTo := merge(relation.To)
 		if mergedFrom == mergedTo {
